@@ -148,6 +148,22 @@ def run(tier, replay=None):
             u = {"c": [0.0, 0.0, 0.0], "p": [{"n": 2, "l": 0, "a": rng.uniform(2.0, 8.0), "d": rng.uniform(2.0, 8.0)}, {"n": 2, "l": 1, "a": rng.uniform(1.0, 4.0), "d": rng.uniform(1.0, 4.0)},
                                              {"n": 2, "l": 2, "a": rng.uniform(0.5, 2.0), "d": -rng.uniform(0.5, 2.0)}]}
             dcases.append({"id": "Dm%d" % k, "extra": {"kind": "marginal-derivative", "deriv": 2}, "shells": [sa, sb], "ecps": [u]})
+        # distance scans: an all-tight shell close to an ECP with tight Gaussians (a sharp estimate), the second shell moved through the
+        # band in which the per-l estimates of the pair and of its shifted variants (coefficients times exponent, times exponent squared)
+        # cross the threshold one after the other; the large terms of a second derivative nearly cancel, so dropping one of them is amplified
+        for fam in range(3 if tier == "quick" else 12):
+            za = rng.loguniform(20.0, 120.0); zb = rng.uniform(0.5, 2.0); co = [1.0, 0.3, 0.3][fam % 3]
+            dA = rng.uniform(0.2, 0.4); ua = gen.rand_dir(rng)
+            A = [dA * x for x in ua]
+            eL = rng.loguniform(60.0, 300.0); e0 = rng.loguniform(60.0, 300.0)
+            # moderate ECP coefficients: the screens' thresholds are absolute, the property's bound scales with the coefficients
+            u = {"c": [0.0, 0.0, 0.0], "p": [{"n": 2, "l": 1, "a": eL, "d": rng.uniform(2.0, 10.0)}, {"n": 2, "l": 0, "a": e0, "d": rng.uniform(5.0, 40.0)}]}
+            npt = 40 if tier == "quick" else 80
+            for i in range(npt):
+                bx = -3.0 - 4.0 * i / (npt - 1)
+                sa = {"l": 0, "c": A, "e": [za], "d": [co]}
+                sb = {"l": 0, "c": [bx, 0.5, -0.3], "e": [zb], "d": [co]}
+                dcases.append({"id": "Ds%d_%d" % (fam, i), "extra": {"kind": "derivative-distance-scan", "deriv": 2}, "shells": [sa, sb], "ecps": [u]})
         dblocks, _ = pair_k.run_pairs(dcases, tmp, tag="d")
         nder = 0; dworst = 0.0; dknown = []
         for c in dcases:
